@@ -16,7 +16,8 @@
    "any S": holds for every Scalar record (floats with NaN/Inf included);
    "ring": for every commutative ring with decidable equality, closed at Qc. *)
 From Coq Require Import Sorted.
-From Amgcl Require Import Scalar QcInst Vec Crs Kernels KernelsProofs MatOps Dist DistProofs.
+From Coq Require Import Permutation.
+From Amgcl Require Import Scalar QcInst Vec Crs Kernels KernelsProofs MatOps Dist DistProofs DistProofsB.
 Local Open Scope nat_scope.
 
 (* ------------------------------------------------------------------ *)
@@ -97,6 +98,39 @@ Theorem C11_global_sizes_identical_on_all_ranks (S : Scalar) (D : dmat S) i j d 
   nth i (dist_glob_sizes D) d = nth j (dist_glob_sizes D) d.
 Proof. exact (dist_glob_sizes_same_everywhere D i j d). Qed.
 Print Assumptions C11_global_sizes_identical_on_all_ranks.
+
+(* ------------------------------------------------------------------ *)
+(* C11-B (part): scale and sort_rows, any S *)
+
+(* mpi::scale = the constructor applied to the serially scaled matrix, for every partition,
+   storage order included *)
+Theorem C11_scale_every_partition (S : Scalar) (A : crs S) (rparts cparts : list nat) (s : S) :
+  dist_scale (split A rparts cparts) s = split (mscale A s) rparts cparts.
+Proof. exact (dist_scale_split A rparts cparts s). Qed.
+Print Assumptions C11_scale_every_partition.
+
+(* mpi::sort_rows: on every rank every local and remote row becomes sorted by column and stays
+   a permutation of itself (the operator is unchanged) *)
+Theorem C11_sort_rows_every_rank (S : Scalar) (D : dmat S) :
+  dm_cparts (dist_sort_rows D) = dm_cparts D /\
+  length (dm_ranks (dist_sort_rows D)) = length (dm_ranks D) /\
+  forall r, r < length (dm_ranks D) ->
+    let M := nth r (dm_ranks D) dflt_rank in
+    let M' := nth r (dm_ranks (dist_sort_rows D)) dflt_rank in
+    ncols (rm_loc M') = ncols (rm_loc M) /\ ncols (rm_rem M') = ncols (rm_rem M) /\
+    Forall2 (fun a b => Permutation a b /\ sorted_weak a = true) (rows (rm_loc M')) (rows (rm_loc M)) /\
+    Forall2 (fun a b => Permutation a b /\ sorted_weak a = true) (rows (rm_rem M')) (rows (rm_rem M)).
+Proof. exact (dist_sort_rows_spec D). Qed.
+Print Assumptions C11_sort_rows_every_rank.
+
+(* FULL STATEMENTS (unproved, covered by the MPI correspondence runs against the serial kernels):
+   forall A rparts cparts (wf, partitions cover A), for all i j,
+     mget (assemble (dist_transpose (split A rparts cparts))) j i = sadj (mget A i j);
+   forall A B (compatible partitions), for all i j,
+     mget (assemble (dist_product (split A rp cp) (split B cp kp))) i j = mget (spgemm_saad A B false) i j;
+   remote_rows delivers, for every ghost column c of A in idx order, row c of B as its owner holds it;
+   copy between backends preserves local/remote parts and the pattern.
+   No rank-by-rank Coq model of transpose/product/remote_rows exists yet. *)
 
 (* ------------------------------------------------------------------ *)
 Section Ring.
